@@ -894,8 +894,20 @@ func (c *Ctx) checkMapLookup(s *obSink) (binaryExcluded bool, ok bool) {
 		ok = false
 	}
 	// the selected routine is the looked-up function or the generic routine: check what the lookup function stores / returns
-	selected := func(v ssa.Value) (bool, string) {
+	var selected func(v ssa.Value) (bool, string)
+	selected = func(v ssa.Value) (bool, string) {
 		v = strip(v)
+		if phi, isPhi := v.(*ssa.Phi); isPhi {
+			var whats []string
+			for _, e := range phi.Edges {
+				g, w := selected(e)
+				if !g {
+					return false, w
+				}
+				whats = append(whats, w)
+			}
+			return len(phi.Edges) > 0, strings.Join(dedup(whats), " or ")
+		}
 		if f, isF := v.(*ssa.Function); isF {
 			return f.Name() == "appendMapAnyAny", f.Name()
 		}
